@@ -757,6 +757,21 @@ func loadSpecFile(path string, sf *SpecFile) error {
 				return fail(err)
 			}
 			cur.CallSites = append(cur.CallSites, CallSiteClause{Callee: f[0], Ordinal: ord, Clause: c})
+		case "closure":
+			// closure NAME [tags] label: expr   -- checked where this function creates the closure NAME (e.g. funcExpr$1);
+			// the closure's free variables are in scope under their names, next to the creator's own state
+			if cur == nil {
+				return fail(fmt.Errorf("closure outside func"))
+			}
+			f := strings.Fields(rest)
+			if len(f) < 2 {
+				return fail(fmt.Errorf("closure NAME expr"))
+			}
+			c, err := parseClause(strings.TrimSpace(strings.TrimPrefix(rest, f[0])), cur.Props)
+			if err != nil {
+				return fail(err)
+			}
+			cur.CallSites = append(cur.CallSites, CallSiteClause{Callee: "closure:" + f[0], Ordinal: -1, Clause: c})
 		case "critical":
 			if cur == nil {
 				return fail(fmt.Errorf("critical outside func"))
